@@ -75,12 +75,12 @@ def cond(obj, ap, ft, tele):
     return f"aperture={ap[0]},field={ft},object={'infinite' if math.isinf(obj) else 'finite'},telecentric={tele}"
 
 
-def check_launch(part, o, rows, obj, ap, ft, tele, mf, det):
+def check_launch(part, o, rows, obj, ap, ft, tele, mf, det, extra=''):
     """One valid configuration: generate rays for 6 fields x fan25 and compare with the definition."""
     Px, Py = LZ.fan25()
     n = len(Px)
     w = 0.5876
-    c = cond(obj, ap, ft, tele)
+    c = cond(obj, ap, ft, tele) + extra
     if not tele:
         epl = abcd.EPL(rows)
         if abcd.pupil_degenerate(rows):
@@ -215,6 +215,20 @@ def run_word(part, unit):
                 part.count('skipped-afocal')
                 continue
             check_launch(part, o, rows, obj, ap, ft, tele, mf, det)
+    # ---- finite object immersed in a medium (n0 != 1): the stated NA is n0 sin U, pupils are imaged from that medium
+    if len(unit['word']) <= 2 and not unit.get('gap_factor'):
+        for n0 in (1.33, 1.515):
+            for ap in (('EPD', p['epd']), ('objectNA', p['na'])):
+                for ft in ('angle', 'object_height'):
+                    mf = p['ang'] if ft == 'angle' else p['h']
+                    obj = p['od'][0]
+                    sp = LZ.spec(surfs, obj=obj, ap=ap, ftype=ft, fields=(0.0, 0.6 * mf, mf), waves=((0.5876, True),), obj_mat=['ideal', n0, 0.0])
+                    o = LZ.build(sp)
+                    part.states += 1
+                    rows = prescription.rows(sp, lambda m, prev: LZ.ref_index(m, 0.5876, prev))
+                    det = dict(det0, obj=obj, ap=list(ap), ftype=ft, tele=False, fields=[0.0, 0.6 * mf, mf], object_medium=n0)
+                    part.count('immersed-object-configurations')
+                    check_launch(part, o, rows, obj, ap, ft, False, mf, det, extra=',object-medium=immersed')
     part.sample(dict(word=unit['word'], stop=unit['stop']))
 
 
